@@ -445,7 +445,7 @@ func (g *c03gen) nestedTop(depth int) string {
 // the error paths of the checker — which error is reported first, where, and how the tree is annotated.
 func (g *c03gen) untyped(d int) string {
 	atoms := []string{"I", "I8", "U64", "F64", "F32", "B", "Str", "Any", "Ints", "Strs", "Anys", "Arr", "MSI", "MII", "St", "PSt", "Sts", "My",
-		"Fi", "Mi", "Amb", "PPSt", "PS", "PA", "PI", "PF64", "PStr", "MIF", "MIK", "Sg", "Zs", "Nope", "1", "2", "0", "1.5", "\"a\"", "\"k\"", "true", "false", "nil"}
+		"Fi", "Mi", "Amb", "PPSt", "PS", "PA", "PI", "PF64", "PStr", "MIF", "MIK", "PPFn", "PPM", "Sg", "Zs", "Nope", "1", "2", "0", "1.5", "\"a\"", "\"k\"", "true", "false", "nil"}
 	if len(g.closure) > 0 {
 		atoms = append(atoms, "#", "#", "#")
 	}
@@ -733,6 +733,7 @@ func runC03(c *Ctx) {
 		{"PI < 1", 0}, {"I >= PI", 0}, {"PStr < \"b\"", 0}, {"PI in [1, 2, 3]", 0}, {"PI in Ints", 0}, {"PI + 1", 0}, {"1 + PI", 0}, {"PF64 * 2", 0}, {"-PI", 0}, {"PI % 2", 0}, {"PI ** 2", 0},
 		{"PStr + \"a\"", 0}, {"PStr contains \"s\"", 0}, {"PStr matches \"s\"", 0}, {"len(PStr)", 0}, {"PI..3", 0}, {"Ints[PI]", 0}, {"PI > 0 ? 1 : 2", 0}, {"NPI + 1", 0}, {"Fi(PI)", 0}, {"PStr[0:1]", 0}, {"not (PI == 1)", 0},
 		{"MIF.foo(1)", 0}, {"MIF?.foo(1)", 0}, {"MIF.foo", 0}, {"MIK.foo", 0}, {"MIK?.foo", 0}, {"MIK.foo()", 0}, {"MIF[1](2)", 0}, {"MIK[1]", 0},
+		{"PPFn.F(1)", 0}, {"PPFn?.F(1)", 0}, {"PPFn.S(\"a\")", 0}, {"PPFn.Nope(1)", 0}, {"PPM.k(1)", 0}, {"PPM?.k(1)", 0}, {"PPM.k", 0}, {"PPFn.F", 0},
 		{"PFi(1)", 0}, {"PFi(I) + 1", 0}, {"PFi(\"a\")", 0}, {"PFi()", 0}, {"Nf(1, 2)", 0}, {"Nf()", 0}, {"Fe(1)", 0}, {"Fe()", 0}, {"Fg(Sg)", 0}, {"Fg(Zs, Sg)", 0}, {"Fg()", 0}, {"Fx(1, \"a\")", 0}, {"Fx()", 0}, {"Fy(1)", 0}, {"Mx(1, 2)", 0}, {"Mx()", 0}, {"Fn()", 0}, {"F2()", 0}, {"Fx(Nope)", 0},
 		{"len(PS)", 0}, {"PS[0]", 0}, {"PS[0:1]", 0}, {"1 in PS", 0}, {"all(PS, {# > 0})", 0}, {"filter(PS, {# > 0})", 0}, {"map(PS, {# + 1})", 0}, {"count(PS, {true})", 0},
 		{"len(PA)", 0}, {"PA[0]", 0}, {"PA[0:1]", 0}, {"1 in PA", 0}, {"any(PA, {# > 0})", 0}, {"none(PA, {# > 9})", 0}, {"one(PA, {# == 0})", 0}, {"PS[0] + PA[1]", 0}, {"len(PS[1:]) + len(PA[:2])", 0},
